@@ -119,7 +119,7 @@ def load_corpus(prop, stage=1):
     return cases
 
 
-def correspondence(ctx, prop, n_quick=300, n_thorough=20000):
+def correspondence(ctx, prop, n_quick=300, n_thorough=7000):
     n = ctx.scale(n_quick, n_thorough)
     hs = run_fixed(load_corpus(prop))
     gen, sqlite_version = gen_histories(seeds_for(ctx, prop, n, 0), jobs=ctx.scale(4, 6))
@@ -178,7 +178,7 @@ def correspondence(ctx, prop, n_quick=300, n_thorough=20000):
                      'comparison of a history stops at the first dirty or declined step' % len(hs))
 
 
-def search(ctx, deep, prop, n_quick=150, n_deep=6000):
+def search(ctx, deep, prop, n_quick=150, n_deep=2500):
     n = n_deep if deep else n_quick
     # stage 1 (the modelled schema space) and stage 2 (adds many-to-many and one-to-one relationships; implementation-side oracles only)
     hs, _ = gen_histories(seeds_for(ctx, prop, n, 1), jobs=4)
